@@ -18,6 +18,10 @@
 (*        ForestAgg (member trees and membership bits chosen by TLC), run  *)
 (*        through the real predict / predict_oob; `expect` is what the     *)
 (*        model computed                                                   *)
+(*   ForestAsm   {status, obs, asked:{y, treePred, mask}}                  *)
+(*        a forest assembled by the harness itself through serde: member   *)
+(*        trees are decision chains of 70..140 levels (one per row) with   *)
+(*        random votes / values and random membership bits                 *)
 (*                                                                         *)
 (* Every fit goes through the history action Fit(key, digest) of           *)
 (* Forest.tla / ForestHist.tla (FitGuard, FitEffect) -- the fits of one    *)
@@ -43,7 +47,8 @@ VARIABLES l, seen, nbad, hits
 vars == <<l, seen, nbad, hits>>
 
 HitNames == {"FirstFit", "Refit", "FitCls", "FitReg", "Kept", "NotKept", "InBagFit",
-             "Assembled", "AssembledOobErr", "Drift"}
+             "FewTreesKept", "RegRowWithoutOobTree", "RelativeRows",
+             "Assembled", "AssembledOobErr", "AssembledDeep", "Drift"}
 
 Bad(e, clause) == PrintT(<<"BAD", l, e.run, e.ev, clause>>)
 
@@ -72,7 +77,11 @@ FitHits(e, ud) ==
     \cup (IF e.status # "ok" THEN {}
           ELSE {IF e.in.kind = "cls" THEN "FitCls" ELSE "FitReg",
                 IF e.in.keep THEN "Kept" ELSE "NotKept"}
-               \cup (IF ud /\ e.in.keep THEN {"InBagFit"} ELSE {}))
+               \cup (IF ud /\ e.in.keep THEN {"InBagFit"} ELSE {})
+               \cup (IF e.in.keep /\ e.in.nTrees <= 4 THEN {"FewTreesKept"} ELSE {})
+               \cup (IF e.in.kind = "reg" /\ FirstFailBasic(e.obs) = "" /\ HasRowWithoutOobTree(e.obs)
+                     THEN {"RegRowWithoutOobTree"} ELSE {})
+               \cup (IF e.in.relative THEN {"RelativeRows"} ELSE {}))
 
 StepFit(e, ud, clause) ==
     /\ IF clause = "" THEN nbad' = nbad ELSE Bad(e, clause) /\ nbad' = nbad + 1
@@ -114,6 +123,24 @@ SameAsModel(e) == /\ e.obs.pred = e.expect.pred
                   /\ e.obs.oobFin = e.expect.oobFin
                   /\ e.obs.oob = e.expect.oob
 
+\* a forest assembled by the harness itself (deep decision chains, random votes): the
+\* same clauses, no model expectation
+AsmAsAsked(e) == /\ e.obs.treePred = e.asked.treePred
+                 /\ e.obs.y = e.asked.y
+                 /\ e.obs.keep => e.obs.mask = e.asked.mask
+
+AsmClauseFrom(e, basic) ==
+    IF basic # "" THEN basic
+    ELSE IF ~AsmAsAsked(e) THEN "Assemble"
+    ELSE FirstFail(e.obs, FALSE, FALSE)
+
+AsmClause(e) == IF e.status # "ok" THEN "Assemble" ELSE AsmClauseFrom(e, FirstFailBasic(e.obs))
+
+StepAsm(e, clause) ==
+    /\ IF clause = "" THEN nbad' = nbad ELSE Bad(e, clause) /\ nbad' = nbad + 1
+    /\ hits' = HitAll({"AssembledDeep"})
+    /\ UNCHANGED seen
+
 StepObs(e, clause) ==
     /\ IF clause = "" THEN nbad' = nbad ELSE Bad(e, clause) /\ nbad' = nbad + 1
     /\ hits' = HitAll({"Assembled"}
@@ -129,6 +156,7 @@ Step ==
               StepFitUD(e, e.status = "ok" /\ UnlimitedDistinct(e.in))
          [] e.ev = "ForestRefit" -> StepRefit(e, RefitClause(e))
          [] e.ev = "ForestObs" -> StepObs(e, ObsClause(e))
+         [] e.ev = "ForestAsm" -> StepAsm(e, AsmClause(e))
          [] OTHER -> Bad(e, "unknown event") /\ nbad' = nbad + 1 /\ UNCHANGED <<seen, hits>>
 
 Init == /\ l = 1 /\ seen = <<>> /\ nbad = 0
